@@ -18,7 +18,9 @@ static Ctx ctxs[MAXT];
 /* shared read-only objects, set up once per execution by the main context */
 typedef struct { Skinny128Key_t k128; Skinny64Key_t k64; MantisKey_t km; Skinny128TweakedKey_t t128;
                 Skinny128ParallelECB_t p128; Skinny64ParallelECB_t p64; MantisParallelECB_t pm;
-                uint8_t key[48], tweak[16], counter[16]; } SharedObjs;   /* (const argument buffers that several threads pass to calls on their own objects) */
+                uint8_t key[48], tweak[16], counter[16];
+                /* the same kinds once more, handed over after a different LAST setup call (round 16: a setter may defer work to the first data call) */
+                MantisKey_t km2; MantisParallelECB_t pm2; Skinny128TweakedKey_t t128b; Skinny64TweakedKey_t t64; } SharedObjs;   /* (const argument buffers that several threads pass to calls on their own objects) */
 static SharedObjs *shared_p;    /* the including file provides the storage */
 #define shared (*shared_p)
 
@@ -51,12 +53,16 @@ static void op_inits(Ctx *c) { dgi(c, skinny128_ctr_init(&c->c128)); dgi(c, skin
     dgi(c, skinny64_parallel_ecb_init(&c->p64)); dgi(c, mantis_parallel_ecb_init(&c->pm)); dgi(c, (int)c->p128.parallel_size);
     skinny128_ctr_cleanup(&c->c128); skinny64_ctr_cleanup(&c->c64); mantis_ctr_cleanup(&c->cm); skinny128_parallel_ecb_cleanup(&c->p128); skinny64_parallel_ecb_cleanup(&c->p64); mantis_parallel_ecb_cleanup(&c->pm); }
 /* read-only users of shared objects */
-static void op_sh_s128(Ctx *c) { skinny128_ecb_encrypt(c->out, c->in, &shared.k128); skinny128_ecb_decrypt(c->out + 16, c->in + 16, &shared.k128); skinny128_ecb_encrypt(c->out + 32, c->in, &shared.t128.ks); dg(c, c->out, 48); }
-static void op_sh_s64(Ctx *c) { skinny64_ecb_encrypt(c->out, c->in, &shared.k64); skinny64_ecb_decrypt(c->out + 8, c->in + 8, &shared.k64); dg(c, c->out, 16); }
-static void op_sh_mantis(Ctx *c) { mantis_ecb_crypt(c->out, c->in, &shared.km); mantis_ecb_crypt_tweaked(c->out + 8, c->in + 8, c->tw, &shared.km); dg(c, c->out, 16); }
+static void op_sh_s128(Ctx *c) { skinny128_ecb_encrypt(c->out, c->in, &shared.k128); skinny128_ecb_decrypt(c->out + 16, c->in + 16, &shared.k128); skinny128_ecb_encrypt(c->out + 32, c->in, &shared.t128.ks);
+    skinny128_ecb_encrypt(c->out + 48, c->in, &shared.t128b.ks); skinny128_ecb_decrypt(c->out + 64, c->in, &shared.t128b.ks); dg(c, c->out, 80); }
+static void op_sh_s64(Ctx *c) { skinny64_ecb_encrypt(c->out, c->in, &shared.k64); skinny64_ecb_decrypt(c->out + 8, c->in + 8, &shared.k64);
+    skinny64_ecb_encrypt(c->out + 16, c->in, &shared.t64.ks); skinny64_ecb_decrypt(c->out + 24, c->in + 8, &shared.t64.ks); dg(c, c->out, 32); }
+static void op_sh_mantis(Ctx *c) { mantis_ecb_crypt(c->out, c->in, &shared.km); mantis_ecb_crypt_tweaked(c->out + 8, c->in + 8, c->tw, &shared.km);
+    mantis_ecb_crypt(c->out + 16, c->in, &shared.km2); mantis_ecb_crypt_tweaked(c->out + 24, c->in + 8, c->tw, &shared.km2); dg(c, c->out, 32); }
 static void op_sh_p128(Ctx *c) { dgi(c, skinny128_parallel_ecb_encrypt(c->out, c->in, 16 * 11, &shared.p128)); dgi(c, skinny128_parallel_ecb_decrypt(c->out + 176, c->in, 16 * 9, &shared.p128)); dg(c, c->out, 320); }
 static void op_sh_p64(Ctx *c) { dgi(c, skinny64_parallel_ecb_encrypt(c->out, c->in, 8 * 11, &shared.p64)); dgi(c, skinny64_parallel_ecb_decrypt(c->out + 88, c->in, 8 * 9, &shared.p64)); dg(c, c->out, 160); }
-static void op_sh_pm(Ctx *c) { dgi(c, mantis_parallel_ecb_crypt(c->out, c->in, c->tw, 8 * 11, &shared.pm)); dg(c, c->out, 88); }
+static void op_sh_pm(Ctx *c) { dgi(c, mantis_parallel_ecb_crypt(c->out, c->in, c->tw, 8 * 11, &shared.pm));
+    dgi(c, mantis_parallel_ecb_crypt(c->out + 88, c->in, c->tw, 8 * 19, &shared.pm2)); dg(c, c->out, 240); }
 
 /* distinct objects, adjacent outputs: thread t writes slice t of one array, the slices abut byte-exactly at odd
  * offsets (records of one message encrypted by several workers); nothing outside the slice may be read-modified-written */
@@ -143,11 +149,16 @@ static void shared_prepare(void)
     skinny128_parallel_ecb_init(&shared.p128); skinny128_parallel_ecb_set_key(&shared.p128, k, 32);
     skinny64_parallel_ecb_init(&shared.p64); skinny64_parallel_ecb_set_key(&shared.p64, k, 24);
     mantis_parallel_ecb_init(&shared.pm); mantis_parallel_ecb_set_key(&shared.pm, k, 16, 6, MANTIS_ENCRYPT);
+    /* last call before the hand-over: swap_modes (Mantis, both kinds), set_tweaked_key (Skinny-128), set_tweak (Skinny-64) */
+    mantis_set_key(&shared.km2, k + 3, 16, 7, MANTIS_DECRYPT); mantis_set_tweak(&shared.km2, k + 21, 8); mantis_swap_modes(&shared.km2);
+    mantis_parallel_ecb_init(&shared.pm2); mantis_parallel_ecb_set_key(&shared.pm2, k + 5, 16, 8, MANTIS_DECRYPT); mantis_parallel_ecb_swap_modes(&shared.pm2);
+    skinny128_set_tweaked_key(&shared.t128b, k + 1, 32);
+    skinny64_set_tweaked_key(&shared.t64, k + 2, 16); skinny64_set_tweak(&shared.t64, k + 9, 8);
 }
 
 static void shared_release(void)
 {
-    skinny128_parallel_ecb_cleanup(&shared.p128); skinny64_parallel_ecb_cleanup(&shared.p64); mantis_parallel_ecb_cleanup(&shared.pm);
+    skinny128_parallel_ecb_cleanup(&shared.p128); skinny64_parallel_ecb_cleanup(&shared.p64); mantis_parallel_ecb_cleanup(&shared.pm); mantis_parallel_ecb_cleanup(&shared.pm2);
 }
 
 #endif
